@@ -1,10 +1,55 @@
 import DaskModel.Model.Order
+import DaskModel.Lemmas.ToposortTotal
 /-! Invariants of the normalisation loop of `order` (`strip`): dependents of a stripped non-task leaf were stripped
 before it (so the descending priorities `expected_len - 1 - j` respect dependencies). -/
+namespace Dask.GraphAlg
+
+theorem Path.snoc {g : Graph} {a b c : Key} (p : Path g a b) (e : Edge g b c) : Path g a c := by
+  induction p with
+  | single e' => exact Path.cons e' (Path.single e)
+  | cons e' _ ih => exact Path.cons e' (ih e)
+
+theorem Path.trans {g : Graph} {a b c : Key} (p : Path g a b) (q : Path g b c) : Path g a c := by
+  induction p with
+  | single e' => exact Path.cons e' q
+  | cons e' _ ih => exact Path.cons e' (ih q)
+
+/-- the first edge of a cycle leads to a key on a cycle -/
+theorem Path.cycle_first {g : Graph} {a : Key} (p : Path g a a) : ∃ x, Edge g a x ∧ Path g x x := by
+  cases p with
+  | single e => exact ⟨a, e, Path.single e⟩
+  | cons e q => exact ⟨_, e, q.snoc e⟩
+
+/-- the last edge of a path -/
+theorem Path.last {g : Graph} {a b : Key} (p : Path g a b) : ∃ j, Edge g j b ∧ (j = a ∨ Path g a j) := by
+  induction p with
+  | single e => exact ⟨_, e, Or.inl rfl⟩
+  | cons e _ ih =>
+    obtain ⟨j, hj, h⟩ := ih
+    rcases h with rfl | h
+    · exact ⟨j, hj, Or.inr (Path.single e)⟩
+    · exact ⟨j, hj, Or.inr (Path.cons e h)⟩
+
+/-- the last edge of a cycle comes from a key on a cycle -/
+theorem Path.cycle_last {g : Graph} {a : Key} (p : Path g a a) : ∃ j, Edge g j a ∧ Path g j j := by
+  obtain ⟨j, hj, h⟩ := p.last
+  rcases h with rfl | h
+  · exact ⟨_, hj, p⟩
+  · exact ⟨j, hj, (Path.single hj).trans h⟩
+
+end Dask.GraphAlg
+
 namespace Dask.Order
 open Dask.GraphAlg
 
-def depsOf (g : Graph) (k : Key) : List Key := (g.lookup k).getD []
+theorem edge_depsOf {g : Graph} {a b : Key} (h : Edge g a b) : b ∈ depsOf g a := by
+  obtain ⟨ds, h1, h2⟩ := h
+  unfold deps? at h1
+  simp [depsOf, h1, h2]
+
+theorem edge_mem_keys {g : Graph} {a b : Key} (h : Edge g a b) : a ∈ g.map Prod.fst := by
+  obtain ⟨ds, h1, _⟩ := h
+  exact lookup_some_mem_keys g a ds h1
 
 structure SInv (g : Graph) (st : StripSt) : Prop where
   cover : ∀ k ∈ g.map Prod.fst, k ∈ st.alive ∨ k ∈ st.removed
@@ -18,6 +63,8 @@ structure SInv (g : Graph) (st : StripSt) : Prop where
   strippedNodup : st.stripped.Nodup
   strippedDeps : ∀ x ∈ st.stripped, 2 ≤ (depsOf g x).length
   removedKeys : ∀ k ∈ st.removed, k ∈ g.map Prod.fst
+  /-- a key on a dependency cycle is never removed (neither stripped as a leaf nor removed as a data root) -/
+  noCyc : ∀ r ∈ st.removed, ¬ Path g r r
 
 theorem curDeps_eq (g : Graph) (st : StripSt) (k : Key) :
     curDeps g st k = (depsOf g k).filter (fun d => !st.removed.contains d) := rfl
@@ -64,7 +111,7 @@ theorem strip_leaf_inv {g : Graph} {st : StripSt} (hi : SInv g st) {leaf : Key} 
       rw [hleaf] at this; simp at this
     · refine Classical.byContradiction fun hns => ?_
       exact hi.disj leaf hal (hi.rootsClosed j h hns leaf hd)
-  refine ⟨?_, ?_, ?_, hi.aliveNodup.erase _, ?_, ?_, ?_, ?_, ?_, ?_⟩
+  refine ⟨?_, ?_, ?_, hi.aliveNodup.erase _, ?_, ?_, ?_, ?_, ?_, ?_, ?_⟩
   · intro k hk
     rcases hi.cover k hk with h | h
     · by_cases hkl : k = leaf
@@ -104,13 +151,23 @@ theorem strip_leaf_inv {g : Graph} {st : StripSt} (hi : SInv g st) {leaf : Key} 
     rcases List.mem_cons.mp hk with h | h
     · subst h; exact hi.aliveKeys _ hal
     · exact hi.removedKeys k h
+  · intro r hr p
+    rcases List.mem_cons.mp hr with h | h
+    · subst h
+      -- the cycle enters the leaf from a dependent that is itself on a cycle, hence still alive
+      obtain ⟨j, hj, pj⟩ := p.cycle_last
+      rcases hi.cover j (edge_mem_keys hj) with h | h
+      · have : j ∈ curDependents g st r := (mem_curDependents g st r j).mpr ⟨h, edge_depsOf hj⟩
+        rw [hleaf] at this; simp at this
+      · exact hi.noCyc j h pj
+    · exact hi.noCyc r h p
 
 /-- removing an alive root (no current dependencies) preserves the invariant -/
 theorem remove_root_inv {g : Graph} {st : StripSt} (hi : SInv g st) {root : Key} (hal : root ∈ st.alive)
     (hroot : curDeps g st root = []) (extra : List (Key × Key)) :
     SInv g { st with alive := st.alive.erase root, removed := root :: st.removed, dataRoots := st.dataRoots ++ extra } := by
   have hnotS : root ∉ st.stripped := fun h => hi.disj root hal (hi.strippedRemoved root h)
-  refine ⟨?_, ?_, ?_, hi.aliveNodup.erase _, ?_, ?_, hi.before, hi.strippedNodup, hi.strippedDeps, ?_⟩
+  refine ⟨?_, ?_, ?_, hi.aliveNodup.erase _, ?_, ?_, hi.before, hi.strippedNodup, hi.strippedDeps, ?_, ?_⟩
   · intro k hk
     rcases hi.cover k hk with h | h
     · by_cases hkl : k = root
@@ -139,6 +196,19 @@ theorem remove_root_inv {g : Graph} {st : StripSt} (hi : SInv g st) {root : Key}
     rcases List.mem_cons.mp hk with h | h
     · subst h; exact hi.aliveKeys _ hal
     · exact hi.removedKeys k h
+  · intro r hr p
+    rcases List.mem_cons.mp hr with h | h
+    · subst h
+      -- the cycle leaves the root through a dependency that is itself on a cycle, hence not removed
+      obtain ⟨x, hx, px⟩ := p.cycle_first
+      have hd := edge_depsOf hx
+      have : x ∉ curDeps g st r := by rw [hroot]; simp
+      rw [curDeps_eq, List.mem_filter] at this
+      have hrem : x ∈ st.removed := by
+        refine Classical.byContradiction fun hc => this ⟨hd, ?_⟩
+        simpa using hc
+      exact hi.noCyc x hrem px
+    · exact hi.noCyc r h p
 
 end Dask.Order
 
@@ -233,7 +303,7 @@ theorem stripLoop_inv (g : Graph) (isTask : Key → Bool) : ∀ (fuel : Nat) (st
 theorem strip_inv (g : Graph) (isTask : Key → Bool) (hn : (g.map Prod.fst).Nodup) : SInv g (strip g isTask) := by
   unfold strip
   apply stripLoop_inv
-  refine ⟨fun k hk => Or.inl hk, fun k hk => hk, by simp, hn, by simp, by simp, ?_, by simp, by simp, by simp⟩
+  refine ⟨fun k hk => Or.inl hk, fun k hk => hk, by simp, hn, by simp, by simp, ?_, by simp, by simp, by simp, by simp⟩
   intro A x B h
   simp at h
 
